@@ -370,6 +370,10 @@ def run(ctx, rep, cases=None):
     for e in plan:
         cs, node, res = e["case"], e["node"], e["res"]
         finding = classify(cs)
+        # a known finding excuses only its own symptom: the rows clash raises / garbles the shape, the sampled
+        # box of a dependent product fails to enclose
+        f_shape = finding if finding == F_ROWS else None
+        f_encl = finding if finding == F_DEP else None
         model = replies[e["bbox_line"]]
         rep.count("mode:" + cs["mode"])
         rep.count("depth:%d" % node.depth())
@@ -391,7 +395,7 @@ def run(ctx, rep, cases=None):
             if model.startswith("err:") and finding is None:
                 rep.count("both-reject")
                 continue
-            rep.fail(f"bounding_box raised {res['error']} on a well-formed domain expression ({cs['k']} parameter rows)", slim(cs), finding=finding)
+            rep.fail(f"bounding_box raised {res['error']} on a well-formed domain expression ({cs['k']} parameter rows)", slim(cs), finding=f_shape)
             continue
         d2 = 2 * sum(DIM[x] for x in node.vars())
         boxes = row_boxes(cs, res)
@@ -399,14 +403,14 @@ def run(ctx, rep, cases=None):
         if boxes is None or (cs["k"] <= 1 and res["shape"] != [d2]):
             rep.fail(f"bounding_box returned a tensor of shape {res['shape']} for {cs['k']} parameter rows; the flat form "
                      f"[min_1, max_1, ...] with {d2} entries (or one such box per row for several rows) is what every consumer indexes",
-                     slim(cs), finding=finding)
+                     slim(cs), finding=f_shape)
             continue
         if not all(x == x and abs(x) != float("inf") for x in res["values"]):
-            rep.fail(f"bounding_box returned non-finite bounds {res['values']}", slim(cs), finding=finding)
+            rep.fail(f"bounding_box returned non-finite bounds {res['values']}", slim(cs))
             continue
         # correspondence with the Lean model
         if cs["mode"] != "depprod-nodata":
-            cmp_model(rep, cs, node, res, model, d2, finding)
+            cmp_model(rep, cs, node, res, model, d2)
         # enclosure oracle
         cl = e.get("cand_line")
         n_in = 0
@@ -430,7 +434,7 @@ def run(ctx, rep, cases=None):
             rep.fail(f"a point of the domain lies outside the returned bounding box: axis {ax} of the box is [{lo:.6g}, {hi:.6g}] but the "
                      f"{src} point {[float(x) for x in flat_point(member_node(node), pt)]} (exact membership: inside, parameter row {i}) "
                      f"has coordinate {float(flat_point(member_node(node), pt)[ax]):.6g} — {out:.3g} outside",
-                     dict(slim(cs), point={k_: [str(x) for x in v_] for k_, v_ in pt.items()}, row=i), finding=finding)
+                     dict(slim(cs), point={k_: [str(x) for x in v_] for k_, v_ in pt.items()}, row=i), finding=f_encl)
             continue
         # tightness oracle: primitives at a single row
         if node.is_prim() and cs["k"] <= 1:
@@ -441,7 +445,7 @@ def run(ctx, rep, cases=None):
                 tl = tol_of(bx)
                 if abs(bx[2 * ax] - float(lo_e)) > tl or abs(bx[2 * ax + 1] - float(hi_e)) > tl:
                     rep.fail(f"the bounding box of a primitive at a single parameter row is not tight: axis {ax} is [{bx[2*ax]:.6g}, {bx[2*ax+1]:.6g}] "
-                             f"but the set reaches exactly from {float(lo_e):.6g} to {float(hi_e):.6g}", slim(cs), finding=finding)
+                             f"but the set reaches exactly from {float(lo_e):.6g} to {float(hi_e):.6g}", slim(cs))
                     break
             rep.count("tightness-checked")
         # consumers
@@ -451,7 +455,7 @@ def run(ctx, rep, cases=None):
         opaque_cases(ctx, rep)
 
 
-def cmp_model(rep, cs, node, res, model, d2, finding):
+def cmp_model(rep, cs, node, res, model, d2):
     if model.startswith("err:") or model.startswith("bad-op"):
         rep.disagree("drivers/C18.lean bbox: the model rejects a call the implementation answers", slim(cs),
                      dict(shape=res["shape"], values=res["values"]), model)
@@ -495,10 +499,12 @@ def consumers(ctx, rep, cs, node, res, bx, e, replies):
         except Exception as ex:  # noqa
             rep.fail(f"NormalizationLayer(domain) raised {type(ex).__name__}: {str(ex)[:160]}", slim(cs))
             return
-        worst = float(y.abs().max())
         rep.count("normalised-points", len(members))
-        if not worst <= 1 + 1e-4:
-            j = int(y.abs().max(dim=1).values.argmax())
+        # a float32 point may sit a rounding error outside the box: allow that error in normalised units
+        allow = torch.tensor([1 + 1e-4 + 2 * tol_of(bx) / (bx[2 * i + 1] - bx[2 * i]) for i in range(d)])
+        excess = y.abs() - allow
+        if bool((excess > 0).any()) or not bool(torch.isfinite(y).all()):
+            j = int(excess.max(dim=1).values.argmax())
             rep.fail(f"NormalizationLayer built from the bounding box maps the domain point {[float(a) for a in members[j]]} to {y[j].tolist()} — outside [-1, 1]^{d}",
                      dict(slim(cs), point=[str(a) for a in members[j]]))
             return
